@@ -311,51 +311,56 @@ def r4(run, ctx):
     send = ctx.nodes_calling(f, [P + 'send_signal'])
     if not run.need('R4', send, 'process.send_signal in Watcher.send_signal', f):
         return
-    defs = {}
-    for a in walk_local(f.node):
-        if isinstance(a, ast.Assign) and isinstance(a.targets[0], ast.Name):
-            defs[a.targets[0].id] = a.value
-    # find the names: the one bound to call_hook('before_signal'), the one comparing with SIGKILL
-    hook_name = kill_name = None
-    for k, v in defs.items():
-        if isinstance(v, ast.Call) and astq.call_last(v) == 'call_hook' and v.args and \
-                astq.const_value(v.args[0]) == 'before_signal':
-            hook_name = k
-        if any(isinstance(x, ast.Compare) and 'SIGKILL' in norm_text(x) and
-               'signum' in astq.names_in(x) for x in ast.walk(v)):
-            kill_name = k
-    if hook_name is None or kill_name is None:
-        raise AnalysisError('C14 R4: cannot find hook-result / is-sigkill locals in send_signal')
-    kv = defs[kill_name]
-    for x in ast.walk(kv):
-        if isinstance(x, ast.Compare) and 'SIGKILL' in norm_text(x):
-            run.check('R4', isinstance(x.ops[0], ast.Eq), 'SIGKILL is recognised by value', f, x,
-                      'SIGKILL is recognised by `%s`: signal numbers that come from a request or '
-                      'from the configuration are plain integers (to_signum), never the enum '
-                      'member, so for them the always-sent exemption does not apply'
-                      % norm_text(x), construct='SIGKILL compared by identity')
-    run.check('R4', norm_text(kv) in ("hasattr(signal, 'SIGKILL') and signum == signal.SIGKILL",
-                                      'signum == signal.SIGKILL',
-                                      "signum == signal.SIGKILL and hasattr(signal, 'SIGKILL')"),
-              'the exemption is exactly "the signal is SIGKILL"', f, kv,
-              'the always-sent exemption is %s' % norm_text(kv))
-    hv = defs[hook_name]
-    kws = {k.arg: norm_text(k.value) for k in hv.keywords}
-    run.check('R4', kws.get('pid') == 'pid' and kws.get('signum') == 'signum',
-              'the hook is told the pid and the signal', f, hv)
+    # atoms of the gate, wherever they are written (inline or through a flag local - the
+    # assumption machinery sees through single-assignment flags): "the signal is SIGKILL"
+    # and "before_signal said yes"
+    kill_cmps = [x for x in ast.walk(f.node) if isinstance(x, ast.Compare) and len(x.ops) == 1 and
+                 'SIGKILL' in norm_text(x) and 'signum' in astq.names_in(x)]
+    for x in kill_cmps:
+        run.check('R4', isinstance(x.ops[0], (ast.Eq, ast.NotEq)), 'SIGKILL is recognised by value',
+                  f, x, 'SIGKILL is recognised by `%s`: signal numbers that come from a request or '
+                  'from the configuration are plain integers (to_signum), never the enum '
+                  'member, so for them the always-sent exemption does not apply'
+                  % norm_text(x), construct='SIGKILL compared by identity')
+    hooks = [c for n in ctx.live_nodes(f) for c in n.calls()
+             if astq.call_last(c) == 'call_hook' and c.args and
+             astq.const_value(c.args[0]) == 'before_signal']
+    if run.need('R4', hooks, "call_hook('before_signal') in Watcher.send_signal", f,
+                'before_signal is never consulted'):
+        kws = {k.arg: norm_text(k.value) for k in hooks[0].keywords}
+        run.check('R4', kws.get('pid') == 'pid' and kws.get('signum') == 'signum',
+                  'the hook is told the pid and the signal', f, hooks[0])
     table = {}
     for ks in (False, True):
         for hs in (False, True):
             def assume(e, ks=ks, hs=hs):
-                if isinstance(e, ast.Name) and e.id == kill_name:
-                    return ks
-                if isinstance(e, ast.Name) and e.id == hook_name:
-                    return hs
+                if isinstance(e, ast.Compare) and len(e.ops) == 1 and 'SIGKILL' in norm_text(e) \
+                        and 'signum' in astq.names_in(e):
+                    if isinstance(e.ops[0], (ast.Eq, ast.Is)):
+                        return ks
+                    if isinstance(e.ops[0], (ast.NotEq, ast.IsNot)):
+                        return not ks
+                if isinstance(e, ast.Call) and dotted(e.func) == 'hasattr' and \
+                        'SIGKILL' in norm_text(e):
+                    return True
                 if isinstance(e, ast.Compare) and isinstance(e.ops[0], ast.In) and \
                         norm_text(e.comparators[0]) == 'self.processes':
                     return True
+                if isinstance(e, ast.Compare) and len(e.ops) == 1 and \
+                        isinstance(e.ops[0], (ast.Is, ast.IsNot)) and \
+                        astq.const_value(e.comparators[0], 0) is None and \
+                        'process' in norm_text(e.left):
+                    return isinstance(e.ops[0], ast.IsNot)      # the pid is one of ours
                 if isinstance(e, ast.Call) and astq.call_last(e) == 'call_hook':
                     return hs
+                if isinstance(e, ast.BoolOp):        # the value of a flag local
+                    vs = [assume(v, ks, hs) for v in e.values]
+                    if isinstance(e.op, ast.And):
+                        return False if False in vs else (None if None in vs else True)
+                    return True if True in vs else (None if None in vs else False)
+                if isinstance(e, ast.UnaryOp) and isinstance(e.op, ast.Not):
+                    v = assume(e.operand, ks, hs)
+                    return None if v is None else (not v)
                 return None
             r = reach_under(cfg, cfg.entry, assume, labels_excluded=('exc',))
             table[(ks, hs)] = any(s.id in r for s in send)
@@ -442,6 +447,7 @@ def r6(run, ctx):
 
 
 def r7(run, ctx):
+    from rules.common import stores_hook_entry
     run.rule('R7', 'ignore-flag plumbing')
     f = ctx.fn(W + '_resolve_hook')
     cfg = ctx.cfg(f)
@@ -473,7 +479,7 @@ def r7(run, ctx):
     run.check('R7', astq.has_pattern(t, "$v.append(False)") and
               (astq.has_pattern(t, "$v[1] = to_bool($v[1])") or
                astq.has_pattern(t, "$v = [$v[0], to_bool($v[1])]")) and
-              astq.has_pattern(t, "$w['hooks'][$h] = $v"),
+              stores_hook_entry(gc.node),
               'hooks.NAME = callable[,flag]: flag parsed with to_bool, default False', gc, gc.node,
               'the ignore flag of a configured hook is not parsed as documented')
 
